@@ -213,6 +213,10 @@ impl Pair {
         for e in 0..=1u64 {
             leader.recorded.insert(e, (0..NSIGNERS).collect());
         }
+        // the leader is up and running in its genesis epoch (it serves its epoch settings), everybody registers
+        leader.act(&json!({"a":"Tick"})).await;
+        let who: Vec<usize> = (0..NSIGNERS).collect();
+        leader.act(&json!({"a":"Register","who": who})).await;
         // the follower: same configuration, its own stores, pointed at the leader, protocol parameters from the network
         let follower_config = ServeCommandConfiguration {
             data_stores_directory: dir.join("fstores"),
@@ -236,6 +240,29 @@ impl Pair {
 
     fn leader_down(&self) -> bool {
         self.server.srv.down.load(Ordering::SeqCst)
+    }
+
+    /// a follower can only start while its leader is reachable and serves the protocol configuration of the follower's
+    /// epoch window (e-1, e, e+1): the real start-up reads it from the leader and fails otherwise (the supervisor's
+    /// retry succeeds once the leader has caught up)
+    async fn follower_can_start(&self) -> bool {
+        if self.leader_down() {
+            return false;
+        }
+        let e = *self.follower.tester.observer.current_epoch().await;
+        let ms = self.server.srv.ms.read().unwrap().clone();
+        for q in [e.saturating_sub(1), e, e + 1] {
+            match ms.get_protocol_configuration_message(Epoch(q), SignedEntityTypeDiscriminants::all()).await {
+                Ok(Some(_)) => {}
+                _ => return false,
+            }
+        }
+        true
+    }
+
+    fn leader_cert_count(&self) -> i64 {
+        let conn = sqlite::open(&self.leader.db_path).unwrap();
+        conn.prepare("select count(*) from certificate").unwrap().into_iter().next().unwrap().unwrap().read::<i64, _>(0)
     }
 
     fn fdb(&self) -> sqlite::Connection {
@@ -299,13 +326,89 @@ impl Pair {
                 let r = self.leader.tester.dependencies.certificate_repository.create_certificate(cert).await;
                 self.leader.act(&json!({"a": "Restart"})).await;
                 *self.server.srv.ms.write().unwrap() = self.leader.tester.dependencies.message_service.clone();
-                json!({"ok": r.is_ok(), "epoch": epoch})
+                // the restarted leader runs its cycle (blocked in the genesis epoch) and serves its epoch again
+                for _ in 0..3 {
+                    self.leader.act(&json!({"a":"Tick"})).await;
+                    if self.leader.tester.runtime.state_label() != "idle" {
+                        break;
+                    }
+                }
+                let who: Vec<usize> = (0..NSIGNERS).collect();
+                self.leader.act(&json!({"a":"Register","who": who})).await;
+                json!({"ok": r.is_ok(), "epoch": epoch, "state": self.leader.tester.runtime.state_label()})
+            }
+            ("LEpochUp", _) => {
+                // the chain turns an epoch for the leader, the leader runs its epoch initialisation (and from then on
+                // serves the new epoch), every party registers for the next epoch
+                self.leader.act(&json!({"a":"EpochUp","n":1})).await;
+                let mut ticks = 0;
+                for _ in 0..5 {
+                    self.leader.act(&json!({"a":"Tick"})).await;
+                    ticks += 1;
+                    let st = self.leader.tester.runtime.state_label();
+                    if st != "idle" && st != "signing" {
+                        break;
+                    }
+                }
+                let who: Vec<usize> = match a["who"].as_array() {
+                    Some(w) => w.iter().map(|v| v.as_u64().unwrap() as usize).collect(),
+                    None => (0..NSIGNERS).collect(),
+                };
+                let reg = self.leader.act(&json!({"a":"Register","who": who})).await;
+                json!({"ok": reg["ok"], "ticks": ticks, "state": self.leader.tester.runtime.state_label()})
+            }
+            ("LCertify", _) => {
+                // the leader certifies its current signed entity of the given kind: rounds that come before it in the
+                // leader's order and are still open expire (that is the only way the leader gets past them)
+                let want = a["entity"].as_str().unwrap().to_string();
+                let order = ["MSD", "CSD", "CDB"];
+                let n0 = self.leader_cert_count();
+                let mut expired: Vec<String> = vec![];
+                let mut ok = false;
+                for _ in 0..12 {
+                    let st = self.leader.tester.runtime.state_label();
+                    if st.starts_with("blocked") {
+                        break;
+                    }
+                    if st != "signing" {
+                        self.leader.act(&json!({"a":"Tick"})).await;
+                        continue;
+                    }
+                    // the round the leader is signing: the first kind whose current open message is neither certified nor expired
+                    let mut current = None;
+                    for k in order {
+                        if let Ok(Some(m)) = self.leader.tester.observer.get_current_open_message(aggkit::disc_of(k)).await {
+                            if !m.is_certified && !m.is_expired {
+                                current = Some(k);
+                                break;
+                            }
+                        } else {
+                            current = Some(k);
+                            break;
+                        }
+                    }
+                    let Some(cur) = current else { break };
+                    if cur == want {
+                        for w in 0..NSIGNERS {
+                            self.leader.act(&json!({"a":"Sign","entity":want,"who":w,"label":w,"variant":"ok"})).await;
+                        }
+                        self.leader.act(&json!({"a":"Tick"})).await;
+                        Self::settle().await;
+                        ok = self.leader_cert_count() > n0;
+                        break;
+                    }
+                    if order.iter().position(|k| *k == cur) > order.iter().position(|k| *k == want.as_str()) {
+                        break; // already past it
+                    }
+                    self.leader.act(&json!({"a":"Expire","entity":cur})).await;
+                    self.leader.act(&json!({"a":"Tick"})).await;
+                    expired.push(cur.to_string());
+                }
+                json!({"ok": ok, "expired": expired, "state": self.leader.tester.runtime.state_label()})
             }
             ("Restart", "F") => {
-                if self.leader_down() {
-                    // a follower cannot start while its leader is unreachable (the network configuration is read
-                    // from the leader at start-up): the supervisor's retry succeeds once the leader is back
-                    return json!({"ok": false, "err": "leader down"});
+                if !self.follower_can_start().await {
+                    return json!({"ok": false, "err": "the leader is down or does not serve the follower's epoch window"});
                 }
                 self.follower.act(a).await
             }
@@ -313,8 +416,8 @@ impl Pair {
                 // a process stop inside the certificate chain synchroniser: the named database write fails
                 // (an ABORT raised by a trigger armed for this one cycle), the error propagates, then every
                 // in-memory object of the follower is dropped and rebuilt from the database
-                if self.leader_down() {
-                    return json!({"ok": false, "hit": false, "at": a["at"], "err": "leader down"});
+                if !self.follower_can_start().await {
+                    return json!({"ok": false, "hit": false, "at": a["at"], "err": "the leader is down or does not serve the follower's epoch window"});
                 }
                 let at = a["at"].as_str().unwrap().to_string();
                 let ddl = match at.as_str() {
@@ -338,12 +441,42 @@ impl Pair {
                     Ok(Err(e)) => (false, format!("{e:?}").contains("verif stop")),
                     Err(panic) => (false, panic.contains("verif stop")),
                 };
-                if r.is_err() && !hit {
-                    panic!("unexpected panic of the follower cycle: {r:?}");
-                }
+                // (a panic that is not the armed stop is data as well: the process died, it is restarted)
+                let other_panic = match &r {
+                    Err(p) if !hit => p.chars().take(200).collect::<String>(),
+                    _ => String::new(),
+                };
                 self.follower.tester.rebuild(self.follower.config.clone()).await;
                 self.follower.verified.clear();
-                json!({"ok": ok, "hit": hit, "at": at})
+                // the signed entity of the last stored certificate (what the interrupted synchronisation left behind)
+                let mut entity = String::new();
+                if hit {
+                    let conn = self.fdb();
+                    for r in conn.prepare("select cast(signed_entity_type_id as integer), cast(signed_entity_beacon as text) from certificate order by rowid desc limit 1").unwrap().into_iter() {
+                        let r = r.unwrap();
+                        let t = match r.read::<i64, _>(0) { 0 => "MSD", 1 => "CSD", 2 => "CIF", 3 => "CTX", 4 => "CDB", _ => "CBT" };
+                        entity = format!("{}:{}", t, r.read::<&str, _>(1).replace('"', ""));
+                    }
+                }
+                json!({"ok": ok, "hit": hit, "at": at, "entity": entity, "panic": other_panic})
+            }
+            ("Tick", "F") => {
+                // a panic of the follower's cycle is data: the process died there; it is restarted when it can be
+                let hook = std::panic::take_hook();
+                std::panic::set_hook(Box::new(|_| {}));
+                let r = CatchUnwind(Box::pin(self.follower.act(a))).await;
+                std::panic::set_hook(hook);
+                match r {
+                    Ok(v) => v,
+                    Err(panic) => {
+                        let restarted = self.follower_can_start().await;
+                        if restarted {
+                            self.follower.tester.rebuild(self.follower.config.clone()).await;
+                            self.follower.verified.clear();
+                        }
+                        json!({"ok": false, "panic": panic.chars().take(200).collect::<String>(), "restarted": restarted})
+                    }
+                }
             }
             (_, "L") => self.leader.act(a).await,
             (_, _) => self.follower.act(a).await,
@@ -392,61 +525,108 @@ impl Pair {
     }
 }
 
-fn random_schedule(r: &mut ChaCha20Rng, len: usize) -> Vec<Value> {
+/// seeded driver: epoch rounds in which the leader certifies some of its rounds (letting earlier ones expire), the
+/// follower cycles and receives signatures, with rationed faults; the two nodes see an epoch turn together, one
+/// after the other, or one of them misses it
+fn random_schedule(r: &mut ChaCha20Rng, rounds: usize) -> Vec<Value> {
     let mut out = vec![];
-    // warm-up: the leader leaves the genesis epoch with everybody registered
-    out.push(json!({"a":"Tick","node":"L"}));
-    out.push(json!({"a":"Register","node":"L","who":[0,1,2,3]}));
-    out.push(json!({"a":"Tick","node":"F"}));
+    // who registers with the leader for the next epoch: most of the time everybody, sometimes three of the four parties
+    fn lepoch(r: &mut ChaCha20Rng) -> Value {
+        if below(r, 3) == 0 {
+            let out_ = below(r, NSIGNERS as u64) as usize;
+            let who: Vec<usize> = (0..NSIGNERS).filter(|i| *i != out_).collect();
+            json!({"a":"LEpochUp","who": who})
+        } else {
+            json!({"a":"LEpochUp"})
+        }
+    }
+    let kinds = ["MSD", "CSD", "CDB"];
     let mut down = false;
-    for _ in 0..len {
-        let a = match below(r, 40) {
-            0..=6 => json!({"a":"Tick","node":"L"}),
-            7..=15 => json!({"a":"Tick","node":"F"}),
-            16..=25 => {
-                // everybody signs (or one party does) for one node
-                let node = if below(r, 5) < 2 { "L" } else { "F" };
-                let ent = ["MSD", "CSD", "CDB"][below(r, 3) as usize];
-                let who = below(r, NSIGNERS as u64);
-                json!({"a":"Sign","node":node,"entity":ent,"who":who,"label":who,"variant":"ok","all": below(r, 3) != 0})
+    out.push(json!({"a":"Tick","node":"F"}));
+    for _ in 0..rounds {
+        // what the leader certifies in this epoch, in its own order
+        let skip_msd = below(r, 6) == 0;
+        let n = below(r, 4) as usize;
+        let leader_kinds: Vec<&str> = kinds.iter().skip(if skip_msd { 1 } else { 0 }).take(n).copied().collect();
+        let mut todo: Vec<Value> = leader_kinds.iter().map(|k| json!({"a":"LCertify","entity":k})).collect();
+        let fsteps = 5 + below(r, 8);
+        for _ in 0..fsteps {
+            // leader certifications are interleaved with what happens to the follower
+            if !todo.is_empty() && below(r, 3) == 0 {
+                out.push(todo.remove(0));
             }
-            26 | 27 => json!({"a":"ImmUp","node":"B"}),
-            28 | 29 => json!({"a":"EpochUp","node":"B","n":1}),
-            30 => json!({"a":"EpochUp","node": if below(r, 2) == 0 { "L" } else { "F" },"n": if below(r, 4) == 0 { 2 } else { 1 }}),
-            31 | 32 => {
-                let mut who: Vec<u64> = (0..NSIGNERS as u64).filter(|_| below(r, 5) != 0).collect();
-                if who.is_empty() {
-                    who.push(0);
+            if below(r, 6) == 0 {
+                // a productive stretch: the follower cycles, the signers answer each round it opens
+                out.push(json!({"a":"Tick","node":"F"}));
+                for ent in kinds.iter().take(1 + below(r, 3) as usize) {
+                    out.push(json!({"a":"Tick","node":"F"}));
+                    out.push(json!({"a":"Sign","node":"F","entity":ent,"who":0,"all":true}));
+                    out.push(json!({"a":"Tick","node":"F"}));
                 }
-                json!({"a":"Register","node":"L","who": who})
+                continue;
             }
-            33 => {
-                let ent = ["MSD", "CSD", "CDB"][below(r, 3) as usize];
-                json!({"a":"Expire","node": if below(r, 2) == 0 { "L" } else { "F" },"entity": ent})
-            }
-            34 => {
-                if down {
-                    json!({"a":"Tick","node":"F"})
-                } else {
-                    json!({"a":"Restart","node":"F"})
+            let a = match below(r, 40) {
+                0..=17 => json!({"a":"Tick","node":"F"}),
+                18..=29 => {
+                    let ent = kinds[below(r, 3) as usize];
+                    json!({"a":"Sign","node":"F","entity":ent,"who":0,"all":true})
                 }
-            }
-            35 => {
-                down = !down;
-                json!({"a": if down { "LeaderDown" } else { "LeaderUp" }})
-            }
-            36 => json!({"a":"Regenesis"}),
-            37 => {
-                if down {
-                    json!({"a":"Tick","node":"F"})
-                } else {
-                    json!({"a":"Crash","node":"F","at": if below(r, 3) == 0 { "sync.before_store" } else { "sync.after_store" }})
+                30 | 31 => json!({"a":"ImmUp","node":"B"}),
+                32 | 33 => json!({"a":"Restart","node":"F"}),
+                34 | 35 => json!({"a":"Crash","node":"F","at": if below(r, 4) == 0 { "sync.before_store" } else { "sync.after_store" }}),
+                36 => {
+                    down = !down;
+                    json!({"a": if down { "LeaderDown" } else { "LeaderUp" }})
                 }
+                37 => json!({"a":"Regenesis"}),
+                38 => {
+                    let ent = kinds[below(r, 3) as usize];
+                    json!({"a":"Expire","node":"F","entity":ent})
+                }
+                _ => json!({"a":"Restart","node":"L"}),
+            };
+            out.push(a);
+        }
+        out.append(&mut todo);
+        if down && below(r, 2) == 0 {
+            down = false;
+            out.push(json!({"a":"LeaderUp"}));
+        }
+        // the epoch turns
+        match below(r, 10) {
+            0..=5 => {
+                out.push(lepoch(r));
+                out.push(json!({"a":"EpochUp","node":"F","n":1}));
             }
-            38 => json!({"a":"Restart","node":"L"}),
-            _ => json!({"a":"Tick","node":"F"}),
-        };
-        out.push(a);
+            6 => {
+                out.push(json!({"a":"EpochUp","node":"F","n":1}));
+                out.push(json!({"a":"Tick","node":"F"}));
+                out.push(lepoch(r));
+            }
+            7 => {
+                // the follower sees it late
+                out.push(lepoch(r));
+                out.push(json!({"a":"LCertify","entity":"MSD"}));
+                out.push(json!({"a":"Tick","node":"F"}));
+                out.push(json!({"a":"EpochUp","node":"F","n":1}));
+            }
+            8 => {
+                // two epochs at once for the follower (it was not looking), one after the other for the leader
+                out.push(lepoch(r));
+                out.push(json!({"a":"LCertify","entity":"MSD"}));
+                out.push(lepoch(r));
+                out.push(json!({"a":"EpochUp","node":"F","n":2}));
+            }
+            _ => {
+                // nobody certifies anything for an epoch
+                out.push(lepoch(r));
+                out.push(json!({"a":"EpochUp","node":"F","n":1}));
+                out.push(json!({"a":"Tick","node":"F"}));
+                out.push(json!({"a":"Tick","node":"F"}));
+                out.push(lepoch(r));
+                out.push(json!({"a":"EpochUp","node":"F","n":1}));
+            }
+        }
     }
     out
 }
@@ -463,7 +643,7 @@ fn main() {
         Some(p) => read_ndjson(p).into_iter().map(|s| (s["warm"].as_bool().unwrap_or(false), s["steps"].as_array().unwrap().clone())).collect(),
         None => {
             let mut r = rng(seed, 141);
-            (0..args.num("runs", 4)).map(|i| (i % 2 == 0, random_schedule(&mut r, args.num("len", 60) as usize))).collect()
+            (0..args.num("runs", 4)).map(|i| (i % 2 == 0, random_schedule(&mut r, args.num("rounds", 7) as usize))).collect()
         }
     };
     let mut actions = 0u64;
@@ -490,8 +670,21 @@ fn main() {
                     let ids: Vec<u64> = obs["certs"].as_array().unwrap().iter().map(|c| c["id"].as_u64().unwrap()).collect();
                     if ids != prev_ids {
                         let append = ids.len() >= prev_ids.len() && ids[..prev_ids.len()] == prev_ids[..];
-                        let new_own = obs["certs"].as_array().unwrap().iter().any(|c| c["origin"] == "own" && !prev_ids.contains(&c["id"].as_u64().unwrap()));
-                        let key = if new_own { "own_certificates" } else if append && prev_ids.is_empty() { "first_sync" } else if append { "sync_append" } else { "resync_replace" };
+                        let certs = obs["certs"].as_array().unwrap();
+                        let new_own = certs.iter().any(|c| c["origin"] == "own" && !prev_ids.contains(&c["id"].as_u64().unwrap()));
+                        let new_genesis = certs.iter().any(|c| c["kind"] == "genesis" && !prev_ids.contains(&c["id"].as_u64().unwrap()));
+                        let own_before = certs.iter().any(|c| c["origin"] == "own" && prev_ids.contains(&c["id"].as_u64().unwrap()));
+                        let key = if new_own {
+                            "own_certificates"
+                        } else if prev_ids.is_empty() {
+                            "first_sync"
+                        } else if append && new_genesis {
+                            if own_before { "resync_new_genesis_with_own_certificates" } else { "resync_new_genesis" }
+                        } else if !append {
+                            if own_before { "resync_replace_with_own_certificates" } else { "resync_replace" }
+                        } else {
+                            "resync_same_genesis_append"
+                        };
                         *stats.entry(key.to_string()).or_default() += 1;
                     }
                     prev_ids = ids;
